@@ -9,8 +9,8 @@ import ctxplan
 
 # design-level model checking done for each property: (module, cfg) per tier
 DESIGN = {
-    'quick': [('Theorems', 'MC_Theorems_quick.cfg')],
-    'thorough': [('Theorems', 'MC_Theorems_thorough.cfg')],
+    'quick': [('Theorems', 'MC_Theorems_quick.cfg'), ('MC_ContextSys', 'MC_ContextSys_quick.cfg')],
+    'thorough': [('Theorems', 'MC_Theorems_thorough.cfg'), ('MC_ContextSys', 'MC_ContextSys_thorough.cfg')],
 }
 
 
